@@ -117,11 +117,18 @@ func compilePower(
 		return baseType, nil
 	}
 
-	_, err = compilePower(
+	expType, err := compilePower(
 		context.Child(ctx, ctx.AST.PowerExpression()).WithHint(baseType.Unwrap()),
 	)
 	if err != nil {
 		return types.Type{}, err
+	}
+	// The analyzer accepts an exponent whose type differs from the base (x_f64 ^ y_i32);
+	// the host pow takes two operands of the base type.
+	if expType.IsNumeric() && baseType.Unwrap().IsNumeric() && expType.Kind != baseType.Unwrap().Kind {
+		if err = EmitCast(ctx, expType, baseType.Unwrap()); err != nil {
+			return types.Type{}, err
+		}
 	}
 
 	ctx.Resolver.EmitMathPow(ctx.Writer, ctx.WriterID, baseType)
